@@ -203,6 +203,18 @@ def scripted_histories():
     H.append([("w", "A", "f", Z), ("w", "B", "f", Z), ("w", "A", "g", Y), ("w", "B", "g", Y), ("s",), ("hl", "B", "f"), ("hl", "A", "g"), ("w", "A", "f", X), ("d", "B", "g"), ("s",), ("s",)])
     # recreate after delete propagated
     H.append([("w", "A", "f", Z), ("s",), ("d", "A", "f"), ("s",), ("w", "B", "f", Z), ("s",), ("d", "B", "f"), ("s",), ("w", "A", "f", Z), ("w", "B", "f", Z), ("s",), ("d", "A", "f"), ("s",)])
+    # a file is copied inside one replica and then the original (or the copy) is edited, or moved away: for a moment a
+    # replica holds the same bytes under two names, and whoever "finds the content nearby" instead of copying it across
+    # must still deliver the bytes the sender has at each path
+    V1, V2, V3 = b"version one of the config " * 40, b"version two of the config " * 40, b"third " * 700
+    for side in ("A", "B"):
+        for orig, copy in (("etc/config.yml", "etc/config.yml.orig"), ("m", "a-copy-sorting-first"), ("d/x", "x-elsewhere"), ("big1m", "big1m.bak")):
+            c1 = V1 if orig != "big1m" else (b"0123456789abcdef" * 65536)
+            H.append([("w", "A", orig, c1), ("w", "B", orig, c1), ("s",), ("w", side, copy, c1), ("w", side, orig, V2), ("s",), ("s",)])
+            H.append([("w", "A", orig, c1), ("w", "B", orig, c1), ("s",), ("w", side, copy, c1), ("w", side, orig, V2), ("w", "B" if side == "A" else "A", "unrelated", V3), ("s",), ("w", side, copy, V3), ("s",), ("s",)])
+        # a rename (copy + delete of the original), and a swap of two files' contents
+        H.append([("w", "A", "old-name", V1), ("w", "B", "old-name", V1), ("s",), ("w", side, "new-name", V1), ("d", side, "old-name"), ("s",), ("s",)])
+        H.append([("w", "A", "p", V1), ("w", "B", "p", V1), ("w", "A", "q", V2), ("w", "B", "q", V2), ("s",), ("w", side, "p", V2), ("w", side, "q", V1), ("s",), ("s",)])
     return H
 
 
